@@ -36,11 +36,11 @@ ANCHORS = ['debian._deb822_repro.tokens:whitespace_split_tokenizer.<func>', 'deb
            'debian._deb822_repro.parsing:ValueReference.remove']
 MUST_REACH = ANCHORS
 FLOORS = {'quick': {'nontrivial': 2500, 'monitors': {'M.read': 5000, 'M.noop': 5000, 'M.edit': 4000, 'M.writeback': 4000, 'K5': 4000},
-                    'counters': {'op:append': 1500, 'op:remove': 800, 'op:replace': 800, 'op:ref-set': 800, 'op:ref-remove': 800,
+                    'counters': {'op:append': 1000, 'op:comment+append': 300, 'op:remove': 800, 'op:replace': 800, 'op:ref-set': 800, 'op:ref-remove': 800,
                                  'layout:first-line-blank': 200, 'layout:comment-inside': 800}},
           'thorough': {'nontrivial': 150000, 'monitors': {'M.read': 300000, 'M.noop': 300000, 'M.edit': 250000, 'M.writeback': 250000,
                                                           'K5': 250000},
-                       'counters': {'op:append': 90000, 'op:remove': 50000, 'op:replace': 50000, 'op:ref-set': 50000,
+                       'counters': {'op:append': 60000, 'op:comment+append': 18000, 'op:remove': 50000, 'op:replace': 50000, 'op:ref-set': 50000,
                                     'op:ref-remove': 50000, 'layout:first-line-blank': 12000, 'layout:comment-inside': 50000}}}
 LEVEL_TEXT = ('Runtime monitoring: seeded list-field layouts and edit histories on the live list views; reads are compared with an '
               'independent split oracle, every step of an edit history with a Python-list model, the written-back document '
@@ -127,8 +127,12 @@ def gen_ops(r, comma, nvals, uid):
         k = r.random()
         new = r.choice(['NEW%d', 'n-%d', 'z%d (<< 2)'] if comma else ['NEW%d', 'n-%d', '#n%d']) % uid[0]
         uid[0] += 1
-        if k < .3:
+        if k < .22:
             ops.append(['append', new])
+            n += 1
+        elif k < .30:
+            # a comment line (and/or a line break) followed by a value: the separator must go onto a continuation line
+            ops.append(['comment+append', new, r.choice(['# added %d' % uid[0], 'plain text', '', None])])
             n += 1
         elif k < .45 and n > 1:
             ops.append(['remove', r.randrange(n)])
@@ -259,6 +263,14 @@ def run_case(ctx, case):
                 kind = op[0]
                 ctx.count('op:' + kind)
                 if kind == 'append':
+                    l.append(op[1])
+                    model.append(op[1])
+                elif kind == 'comment+append':
+                    if op[2] is None:
+                        l.append_separator()
+                        l.append_newline()
+                    else:
+                        l.append_comment(op[2])
                     l.append(op[1])
                     model.append(op[1])
                 elif kind == 'remove':
